@@ -235,7 +235,12 @@ func (b *builder) item(k int) {
 	case 0, 1:
 		b.w("t." + tCols[b.intn(0, len(tCols)-1, "icol")].name)
 	case 2:
-		c := tCols[b.intn(0, len(tCols)-1, "icol")]
+		// COALESCE over the integer and string columns only: its result *type* is inferred from
+		// the argument types (observed: COALESCE(d, -1.50) is typed DECIMAL(3,2) after its last
+		// argument and fails on a stored 10.00; COALESCE(bn, <varbinary value>) is typed
+		// LONGTEXT), so with decimal / binary / temporal arguments a parameter and a literal of
+		// the same value legitimately differ through their types - the subject of C34 / C09
+		c := tCols[b.pick2([]int{0, 1, 5}, "icol")]
 		b.w("COALESCE(t." + c.name + ", ")
 		b.col(c, true, "select-fn-arg")
 		b.w(")")
